@@ -1,7 +1,9 @@
 use crate::common::CheckSpec;
 
 pub mod c01;
+pub mod c02;
 pub mod c05;
+pub mod c06;
 pub mod c07;
 pub mod c09;
 pub mod c15;
@@ -15,7 +17,9 @@ pub mod smoke;
 pub fn all() -> Vec<CheckSpec> {
     vec![
         c01::spec(),
+        c02::spec(),
         c05::spec(),
+        c06::spec(),
         c07::spec(),
         c09::spec(),
         c15::spec(),
